@@ -23,6 +23,11 @@ ASAN_LIBOBJS := $(addprefix $(B)/asan/core_,$(addsuffix .o,$(CORE))) \
 OPT_LIBOBJS := $(addprefix $(B)/opt/core_,$(addsuffix .o,$(CORE))) \
                $(addprefix $(B)/opt/fitter_,$(addsuffix .o,$(FITTER))) $(B)/opt/cinter.o
 
+ENGINE_OBJS := $(B)/asan/vfs_driver.o
+$(B)/asan/vfs_driver.o: $(VERIF)engine/vfs_driver.c $(VERIF)engine/vfs_driver.h
+	@mkdir -p $(dir $@)
+	$(CC) -std=gnu99 -O1 -g $(SAN) -I/usr/include -c $< -o $@
+
 .PHONY: setup all clean
 setup: $(ASAN_LIBOBJS)
 	@echo setup done
@@ -51,7 +56,7 @@ $(B)/opt/cinter.o: $(REPO)/src/cinter/splinetable.cpp
 $(B)/asan/h_%.o: $(VERIF)checks/%.cpp $(wildcard $(VERIF)engine/*.hpp) $(wildcard $(VERIF)ref/*.hpp)
 	@mkdir -p $(dir $@)
 	$(CXX) $(ASAN_CXX) $(INC) $(DEFS) -MMD -c $< -o $@
-$(B)/bin/%: $(B)/asan/h_%.o $(ASAN_LIBOBJS)
+$(B)/bin/%: $(B)/asan/h_%.o $(ASAN_LIBOBJS) $(ENGINE_OBJS)
 	@mkdir -p $(dir $@)
 	$(CXX) $(SAN) -o $@ $^ $(LIBS)
 
